@@ -564,6 +564,7 @@ func runC04(cfg Config) {
 	}
 	runC04Stores(cfg, rep, m, rng)
 	runGCSIndex(cfg, rep, m, rng)
+	c04CLI(cfg, rep, rng) // the real binary under --digest: every index-reading/-writing sub-command and the index server (c04cli.go)
 	rep.Write(cfg.Out)
 }
 
